@@ -595,6 +595,59 @@ theorem gen_vec_shrink_to_fit (c : Cfg) (v : VS) (w : W) (hb : c.esz * v.cap < U
     simp only [hb', if_true, liftV, gen_rv_shrink_to_fit c v hb hlim h]
     cases shrinkToFit c v <;> rfl
 
+/-- `Vec::new_in` -/
+theorem gen_vec_new_in (c : Cfg) : Gen.Fn.vec_new_in c () = .ok newVec := rfl
+
+/-- `RawVec::allocate_in` as translated is the model's `withCapacity` (`none` = panic) -/
+theorem gen_rv_allocate_in (c : Cfg) (n : Nat) (z : Bool) :
+    Gen.Fn.rv_allocate_in c n z () = match withCapacity c n with | some v => .ok v | none => .panic := by
+  unfold Gen.Fn.rv_allocate_in withCapacity
+  simp only []
+  cases hm : checkedMul n c.esz with
+  | none => rfl
+  | some bytes =>
+    have hb : bytes = n * c.esz := by
+      unfold checkedMul at hm; split at hm
+      · injection hm with hm; exact hm.symm
+      · cases hm
+    simp only [Gen.Fn.rv_allocate_in.k_1, gen_alloc_guard, Rs.bindP, Gen.Fn.rv_allocate_in.k_2]
+    by_cases h0 : bytes = 0
+    · simp [h0, Gen.Fn.rv_allocate_in.k_3]
+    · have h0b : (bytes == 0) = false := by simpa using h0
+      simp only [h0b, Bool.false_eq_true, if_false, h0, Rs.layoutFromSizeAlign]
+      by_cases hv : validLayout bytes c.eal = true
+      · have he : c.esz ≠ 0 := by intro he; rw [he] at hb; omega
+        have hdiv : bytes / c.esz = n := by rw [hb]; exact Nat.mul_div_cancel n (Nat.pos_of_ne_zero he)
+        have hk : ∀ z, Gen.Fn.rv_allocate_in.k_4 c n z () c.esz bytes bytes (.ok ()) c.eal ⟨bytes, c.eal⟩ ⟨bytes, c.eal⟩ (arena_alloc_buf c bytes) =
+            if !c.allocOk || decide (bytes > c.allocLimit) then .panic else .ok ⟨List.replicate n none, 0, n⟩ := by
+          intro z
+          unfold Gen.Fn.rv_allocate_in.k_4 arena_alloc_buf arena_serves
+          cases c.allocOk <;> by_cases hl : bytes > c.allocLimit <;> simp [hl, Gen.Fn.rv_allocate_in.k_3, hdiv]
+        simp only [hv, if_true, Bool.not_true, Bool.false_eq_true, if_false]
+        cases z <;> simp only [Bool.false_eq_true, if_false, if_true, hk] <;>
+          (by_cases hs : (!c.allocOk || decide (bytes > c.allocLimit)) = true <;> simp [hs])
+      · have hv' : validLayout bytes c.eal = false := by simpa using hv
+        simp [hv']
+
+theorem gen_vec_with_capacity_in (c : Cfg) (n : Nat) :
+    Gen.Fn.vec_with_capacity_in c n () = match withCapacity c n with | some v => .ok v | none => .panic := by
+  unfold Gen.Fn.vec_with_capacity_in Gen.Fn.rv_with_capacity_in
+  simp only [gen_rv_allocate_in, Rs.bindP]
+  unfold withCapacity
+  cases checkedMul n c.esz with
+  | none => rfl
+  | some bytes =>
+    simp only []
+    by_cases h0 : bytes = 0
+    · simp [h0]
+    · simp only [h0, if_false]
+      by_cases hv : validLayout bytes c.eal = true
+      · simp only [hv, Bool.not_true, Bool.false_eq_true, if_false]
+        by_cases hs : (!c.allocOk || decide (bytes > c.allocLimit)) = true <;> simp [hs]
+      · have hv' : validLayout bytes c.eal = false := by simpa using hv
+        simp [hv']
+
+#print axioms gen_vec_with_capacity_in
 #print axioms gen_vec_shrink_to_fit
 #print axioms gen_vec_len
 #print axioms gen_vec_capacity
